@@ -209,6 +209,16 @@ func floodRun(e *Env) {
 	if g.Pct(25) {
 		nsenders = g.Range(2, 4)
 	}
+	// what the lines are made of: the rule counts what goes over the wire, i.e.
+	// bytes (the "characters" of the protocol's 512-character limit), so text in
+	// a multi-byte encoding is charged for its bytes
+	unit := []string{"y", "\u00e9", "\u65e5", "\U0001F60A"}[g.W(7, 1, 1, 1)]
+	fill := func(n int) string {
+		if n <= 0 {
+			return ""
+		}
+		return strings.Repeat(unit, n/len(unit)) + strings.Repeat("y", n%len(unit))
+	}
 	gaps := []time.Duration{0, 0, 0, 100 * time.Millisecond, time.Second, 2100 * time.Millisecond, 2500 * time.Millisecond, 5 * time.Second, 12 * time.Second, time.Minute, 5 * time.Minute}
 	issued := map[string]*floodLine{}
 	var order []*floodLine // issue order for the single-sender case (texts may repeat)
@@ -297,14 +307,14 @@ func floodRun(e *Env) {
 					var text string
 					if nsenders > 1 {
 						text = fmt.Sprintf("P %d.%06d ", t, seq)
-						text += strings.Repeat("x", it.ln-len(text))
+						text += fill(it.ln - len(text))
 					} else {
 						// the rule knows lengths only: the verb must make no difference
 						text = it.prefix
 						if len(text) > it.ln {
 							text = text[:it.ln]
 						}
-						text += strings.Repeat("y", it.ln-len(text))
+						text += fill(it.ln - len(text))
 					}
 					fl := &floodLine{text: text, enq: e.S.Now(), floodOn: floodNow}
 					issued[text] = fl
